@@ -10,15 +10,20 @@ ACTIONS = ["SetVal", "AddInclude", "RemoveInclude", "Build"]
 
 
 # ---- binding glue: spec content -> file text, spec value sequence -> the number the kernel computes
-def header_text(c):
-    return "acc = acc * 10 + %d;\n" % c["val"] + "".join('#include "%s.h"\n' % g for g in sorted(c["inc"]))
+def inc_line(delims, frm, to):
+    """#include line for the edge frm -> to with the delimiter the spec assigned to that edge."""
+    return ('#include <%s.h>\n' if delims[frm][to] == "a" else '#include "%s.h"\n') % to
 
 
-def kernel_text(root):
+def header_text(c, delims, h):
+    return "acc = acc * 10 + %d;\n" % c["val"] + "".join(inc_line(delims, h, g) for g in sorted(c["inc"]))
+
+
+def kernel_text(root, delims):
     return ("@kernel void k(int *out) {\n"
             "  for (int i = 0; i < 1; ++i; @tile(1, @outer, @inner)) {\n"
             "    int acc = 0;\n" +
-            "".join('#include "%s.h"\n' % h for h in root) +
+            "".join(inc_line(delims, "kernel", h) for h in root) +
             "    out[i] = acc;\n"
             "  }\n"
             "}\n")
@@ -37,8 +42,8 @@ def to_case(b):
         if s["a"] == "build":
             steps.append({"a": "build"})
         else:
-            steps.append({"a": s["a"], "h": s["h"], "file": header_text(s["text"])})
-    return {"kernel": kernel_text(b["root"]), "headers": {h: header_text(c) for h, c in b["init"].items()}, "steps": steps}
+            steps.append({"a": s["a"], "h": s["h"], "file": header_text(s["text"], b["delims"], s["h"])})
+    return {"kernel": kernel_text(b["root"], b["delims"]), "headers": {h: header_text(c, b["delims"], h) for h, c in b["init"].items()}, "steps": steps}
 
 
 def shape(b, j):
@@ -54,9 +59,9 @@ def shape(b, j):
         else:
             cur[s["h"]] = s["text"]
             since.append(s["a"])
-    texts = [header_text(c) for c in cur.values()]
+    texts = [header_text(c, b["delims"], "kernel") for c in cur.values()]
     dup = len(set(texts)) < len(texts)
-    return "after=%s:%s:%s" % ("+".join(sorted(set(since))) or "nothing", "first" if nb == 0 else "rebuild", "dup" if dup else "nodup")
+    return "after=%s:%s:%s:%s" % ("+".join(sorted(set(since))) or "nothing", "first" if nb == 0 else "rebuild", "dup" if dup else "nodup", b.get("style", "quoted"))
 
 
 def warm_template(ctx, exe, env):
@@ -243,7 +248,7 @@ def run(ctx):
     # every build step of a history is compared, so a history that is a proper prefix of another one
     # (same kernel, same initial files) adds nothing: keep the maximal ones
     def hkey(b, n):
-        return json.dumps([b["root"], b["init"], b["steps"][:n]], sort_keys=True)
+        return json.dumps([b["root"], b["init"], b["style"], b["steps"][:n]], sort_keys=True)
     prefixes = set()
     for b in behaviours:
         for n in range(1, len(b["steps"])):
